@@ -29,7 +29,7 @@ def run_tlc(module, cfg=None, env=None, workers=1, timeout=600, xmx="2g", extra=
     if env:
         e.update(env)
     cmd = ["java", "-XX:+UseParallelGC", "-Xmx" + xmx, "-Xss64m", "-cp", JAR, "tlc2.TLC", "-workers", str(workers),
-           "-metadir", meta, "-config", (cfg or module) + ".cfg"] + list(extra) + [module + ".tla"]
+           "-noGenerateSpecTE", "-metadir", meta, "-config", (cfg or module) + ".cfg"] + list(extra) + [module + ".tla"]
     t0 = time.time()
     try:
         p = subprocess.run(cmd, cwd=d, env=e, stdout=subprocess.PIPE, stderr=subprocess.STDOUT, timeout=timeout)
